@@ -286,21 +286,25 @@ class Schedule:  # 0404
 
         await self.tcs._obtain_lock(self.idx)  # maybe raise TimeOutError
 
-        if not did_io:  # must know the version of the schedule about to be RQ'd
-            self._global_ver, _ = await self.tcs._schedule_version(force_io=True)
+        try:  # the lock must be released, even if a send fails or the caller gives up
+            if not did_io:  # must know the version of the schedule about to be RQ'd
+                self._global_ver, _ = await self.tcs._schedule_version(force_io=True)
 
-        self._payload_set[0] = None  # if 1st frag valid: schedule very likely unchanged
-        while frag_num := next(
-            i for i, f in enumerate(self._payload_set, 1) if f is None
-        ):
-            fragment = await get_fragment(frag_num)
-            # next line also in self._handle_msg(), so protected there with a lock
-            self._payload_set = self._update_payload_set(self._payload_set, fragment)
-            if self._full_schedule:  # TODO: potential for infinite loop?
-                self._sched_ver = self._global_ver  # type: ignore[unreachable]
-                break
+            self._payload_set[0] = None  # if 1st frag valid: schedule likely unchanged
+            while frag_num := next(
+                i for i, f in enumerate(self._payload_set, 1) if f is None
+            ):
+                fragment = await get_fragment(frag_num)
+                # next line also in self._handle_msg(), so protected there with a lock
+                self._payload_set = self._update_payload_set(
+                    self._payload_set, fragment
+                )
+                if self._full_schedule:  # TODO: potential for infinite loop?
+                    self._sched_ver = self._global_ver  # type: ignore[unreachable]
+                    break
 
-        self.tcs._release_lock()
+        finally:
+            self.tcs._release_lock()
 
     def _proc_payload_set(self, payload_set: _PayloadSetT) -> OuterScheduleT | None:
         """Process a payload set and return the full schedule (sets `self._schedule`).
